@@ -37,6 +37,7 @@ uint32_t g_popser;    /* serial of the element a pop removes (pre-state) */
 #define MINZ(a, b) ((a) < (b) ? (a) : (b))
 #define NO_ALLOC (g_allocs == 0 && g_frees == 0 && !g_freed_w)
 
+size_t g_eq_witness;   /* index at which the std::equal model found a mismatch */
 uint32_t g_kser;
 int g_case;           /* proof case selector (harness-chosen) */
 ssize_t g_a_pos, g_b_pos; size_t g_a_size, g_b_size, g_a_cap, g_b_cap, g_a_data, g_b_data;
